@@ -115,8 +115,8 @@ func init() {
 				return m
 			}
 			igR, egR := inReach(ig), inReach(eg)
-			written := map[string][]string{}   // prefix -> run-time writers (Set)
-			imported := map[string][]string{}  // prefix -> writers reachable from InitGenesis
+			written := map[string][]string{}  // prefix -> run-time writers (Set)
+			imported := map[string][]string{} // prefix -> writers reachable from InitGenesis
 			for _, s := range e.storeSites() {
 				if !strings.HasPrefix(s.atom, "Set(") {
 					continue
@@ -235,7 +235,7 @@ func init() {
 			}
 		}})
 
-	register(&Rule{ID: "C18.rebuild", Props: []string{"C18", "C02", "C07", "C20"}, Floor: 8,
+	register(&Rule{ID: "C18.rebuild", Props: []string{"C18", "C02", "C07", "C20", "C15"}, Floor: 8,
 		Doc: "on import, records are stored under keys built from their own fields and derived indexes from the record's fields and completion time",
 		Run: func(e *Engine, r *RuleRun) {
 			fn := r.Need("keeper.Keeper.InitGenesis")
